@@ -254,6 +254,14 @@ def base_events(req):
                         # the first 2-D set of every model is at the default orientation (all angles zero: every
                         # pixel then has a zero component along the particle's axis)
                         pars[p.name] = 0.0 if k == 0 else rng.choice([0.0, 20.0, 45.0, 77.0, 90.0, -30.0, 130.0])
+            if dim == "1d" and k == nsets - 1 and nsets > 1:
+                # exact special values: every dimensionless ratio- or exponent-like parameter (default >= 0.5, not an
+                # integer choice) is exactly 1 where its limits allow - code often has a separate branch there
+                for p in kernel_call_parameters(info):
+                    if (str(p.units) == "" and not p.is_control and not p.choices and p.type != "sld"
+                            and float(p.default) >= 0.5 and float(p.default) != 1.0
+                            and p.limits[0] <= 1.0 <= p.limits[1]):
+                        pars[p.name] = 1.0
             if k % 3 == 1:
                 add_dispersity(info, pars, rng, dim, big=(rng.random() < 0.5))
             smax, _ = length_scale(info, pars)
